@@ -1,18 +1,10 @@
 //@ include prelude/header.rs
 //@ unit U02 paint.rs core: emit, paint_buffered_minus_and_plus_lines, prepare (C01, C02, C11)
 verus! {
-//@ include prelude/base.rs
-//@ include prelude/std_assumed.rs
-//@ include prelude/render.rs
-//@ include prelude/state.rs
-//@ include prelude/opaque.rs
-//@ shims merge_conflict grep tabs utils::tabs config line_numbers
-//@ broadcast vax::vax_group rax::rax_group r2x_group
+//@ set PAINTER_EXTRA ,config,line_numbers_data,highlighter
+//@ include prelude/sm_env.rs
 
 //@ type src/minusplus.rs MinusPlus
-//@ type src/config.rs Config keep=line_buffer_size,tab_cfg
-//@ type src/paint.rs Painter keep=minus_lines,plus_lines,writer,output_buffer,config,line_numbers_data,highlighter
-//@ include prelude/render2.rs
 
 impl<T> MinusPlus<T> {
     //@ fn src/minusplus.rs MinusPlus::new
